@@ -1,4 +1,4 @@
-import OrdModel.Proofs.IndexInsnumUloc
+import OrdModel.Proofs.IndexInsnumDedup
 /-
 C07 — parent/child provenance cannot be forged.
 Model: `linkParents` (the `for parent in parents` loop of `update_inscription_location`) and the
@@ -8,9 +8,10 @@ Proved: what the parent loop records (`c07_parents_recorded`): exactly the purpo
 are already in `id_to_sequence_number`, in order; each recorded parent's sequence number is smaller
 than the child's (`c07_parent_lt`, from the C05 invariant: the child's own entry and id are written
 only after the loop); the children table gains exactly the pairs (parent, child) for the recorded
-parents (`c07_children_iff_partial`).  NOT proved (see notes/C07.md): that the `retain` filter
-leaves a duplicate-free sublist of the floating ids (the filter is a local definition of
-`indexInscriptions`), the latest-child tables, and the lift to reachable states.
+parents (`c07_children_iff_partial`); the `retain` filter (named `dedupParents`, equal to the model's
+local definition by `rfl`: `c07_retain_is_model`) leaves a duplicate-free list of purported parents
+that are ids of the transaction's floating list (`c07_retain_filter`).  NOT proved (see
+notes/C07.md): the latest-child tables and the lift to reachable states.
 -/
 namespace Ord.Index.C07
 open Ord.Index Ord.Index.Insnum Ord.Outcome
@@ -66,6 +67,21 @@ theorem c07_children_iff_partial (seq : Nat) (ps : List InscriptionId) (st st' :
       have := h5 p hp x.1 hps
       rw [← hx] at this
       exact this
+
+/-- `index_inscriptions` is literally the model function with the retain filter named -/
+theorem c07_retain_is_model (cfg : Cfg) (height time : Nat) (tx : Tx) (inputs : List (TxIn × UtxoEntry))
+    (inputRanges : Option (List (Nat × Nat))) (ls : LocState) :
+    indexInscriptions cfg height time tx inputs inputRanges ls = indexInscriptions' cfg height time tx inputs inputRanges ls :=
+  indexInscriptions_eq cfg height time tx inputs inputRanges ls
+
+/-- the parents handed to `update_inscription_location` have no repeats and each is both a
+purported parent and the id of an inscription spent or revealed by the transaction
+(`potential` = ids of the floating list) -/
+theorem c07_retain_filter (potential ps : List InscriptionId) :
+    (dedupParents potential ps).Nodup ∧ (∀ x ∈ dedupParents potential ps, x ∈ ps ∧ x ∈ potential) :=
+  dedupParents_spec potential ps
+
+example : dedupParents [⟨7, 0⟩, ⟨8, 0⟩] [⟨7, 0⟩, ⟨9, 0⟩, ⟨7, 0⟩, ⟨8, 0⟩] = [⟨7, 0⟩, ⟨8, 0⟩] := by decide
 
 /-! non-vacuity: a parent known to the table is linked, an unknown one is not -/
 example : ∃ st', linkParents 1 [⟨7, 0⟩, ⟨9, 0⟩]
